@@ -14,7 +14,7 @@ Open Scope N_scope.
 Inductive tnode :=
 | TText (txt : bytes) (u isSet : bool)        (* OpText *)
 | TShow (c : N) (v : shown)                   (* OpShow of a value *)
-| TCall (f : tfunc) (b : N)                   (* call of a macro with B = the format of the caller's context *)
+| TCall (f : tfunc) (b : N)                   (* call of a macro with B = the format of the caller context *)
 | TCallShow (f : tfunc) (c : N) (ty : N) (native : bool)
                                               (* call with B = ReturnString, then OpShow of the string as a value of
                                                  the format type ty in the context c; native = the macro is held in
@@ -28,7 +28,7 @@ Inductive outcome :=
 | Done
 | Panic (e : werr)        (* panic(outError{err}): becomes a PanicError, recoverable *)
 | Fatal (e : option werr) (* panic(&fatalError{..}): not recoverable, leaves Run as a host panic;
-                             Some e = the converter's error, None = no converter configured *)
+                             Some e = the converter error, None = no converter configured *)
 | Fault.                  (* a Go runtime error inside the renderer: becomes a fatalError too *)
 
 Definition of_res (r : res) : outcome :=
@@ -41,7 +41,7 @@ Section Exec.
   Variable showf : N -> N -> bytes -> shown.
   (* the Markdown converter as the list of Write calls it makes for a source; None = not configured *)
   Variable conv : option (bytes -> list bytes).
-  (* OpReturn raises the converter's error as a fatalError (true) or as an outError (false):
+  (* OpReturn raises the converter error as a fatalError (true) or as an outError (false):
      generated fact gen_conv_error_is_fatal *)
   Variable conv_fatal : bool.
 
@@ -144,7 +144,7 @@ Section Exec.
 End Exec.
 
 (* The renderer chosen by OpCallMacro for the B operand and the format of the
-   callee, as exec_node decides it (0 the caller's renderer, 1 a string
+   callee, as exec_node decides it (0 the caller renderer, 1 a string
    builder, 2 a buffer converted at return, 3 a new renderer on the same
    writer); proved equal to the generated table gen_callmacro_switch. *)
 Definition switch_kind (b : Z) (fmt : N) : N :=
